@@ -18,6 +18,7 @@ from .rules import rx as RX
 from .rules import rg as RG
 from .rules import r2 as R2
 from .rules import r3 as R3
+from .rules import c09 as C9
 
 TRUST = ('trusted: the CPython parser (ast), the callee resolver of sa/model.py (receiver roles, '
          'unique method names), Python list/str/re semantics as encoded in the rules; ')
@@ -140,6 +141,28 @@ prop('C08',
      'static analysis: call-site census of latex_error, dominance of the diagnostic, '
      'data-flow of the collected tokens into buf.back',
      'DESIGN.md 3.7, 4 C08')
+
+prop('C09',
+     [C9.sb1, C9.sb2, C9.sb3, C9.sb4, C9.sb5, ST.pd7, PD.pd5, MI.df1, MO.ix6, R3.ix12, MI.uk, R3.rs1],
+     'structural clauses only: the substitution loop replaces #k by the complete k-th argument and '
+     'copies every other body token once, in order (SB1); one argument per code, defaults at the '
+     'index of the code (SB2); \\newcommand / \\def register unconditionally under the literal name '
+     'with n codes, optional first iff a default is given, body and default from the right '
+     'arguments (SB3); definition handlers return no text (SB4, DF1); the three supply routes fill '
+     'the one table of the one parser, which is never replaced, and a use looks the definition up '
+     'at the time of use (SB5); argument references are validated against n (IX6, IX12); stored '
+     'bodies and defaults are copied before they are stamped (PD5, PD7)',
+     'decides the SHAPE of the definition and substitution machinery, each clause a necessary '
+     'condition of C09 (breaking it breaks substitution, redefinition, or the equality of the three '
+     'routes). NOT decided: that nested uses expand fully for all bodies, that single-token '
+     'arguments are collected as TeX does, and the equality of the extracted text of three runs up '
+     'to a constant shift - these are relations over run-time token sequences and between '
+     'executions',
+     'the registry entry of \\newcommand (code *AOOA) gives the argument layout the rules use',
+     'static analysis: shape analysis of the substitution loop by case split on the token class, '
+     'constructor-argument census of the registration sites against the registry entry, '
+     'return-value census of the definition handlers, store census of the macro tables',
+     'DESIGN.md 3.8, 4 C09')
 
 prop('C10',
      [MT.mt1, MT.mt2, MT.mt5, R2.mt6, R2.mt7, R2.mt8, MI.ex2, MI.lc1, PS.ps3, T.mt4, PD.pd1, R3.ix14, MO.ml2, R3.tk1],
@@ -300,9 +323,6 @@ prop('C17',
 
 # properties not claimed (yet), with the reason; kept current by hand
 NOT_APPLICABLE = {
-    'C09': 'substitution correctness over all definitions/documents and the equality of three '
-           'runs up to a constant shift are relations over run-time token sequences and between '
-           'executions; no static rule in reach decides them (DESIGN.md 4, C09)',
 }
 for _p in ['C%02d' % i for i in range(1, 21)]:
     if _p not in PROPS and _p not in NOT_APPLICABLE:
